@@ -47,20 +47,35 @@ func baselineFuncs() map[string]bool {
 	return m
 }
 
-var baselineSigCache map[string][]string
+var baselineSigCache, baselineTypeCache map[string][]string
+
+func loadBaselineSigs() {
+	if baselineSigCache != nil {
+		return
+	}
+	baselineSigCache = map[string][]string{}
+	baselineTypeCache = map[string][]string{}
+	for _, l := range strings.Split(baselineFuncsTxt, "\n") {
+		f := strings.Split(strings.TrimRight(l, "\r\n"), "\t")
+		if len(f) >= 2 && f[1] != "" {
+			baselineSigCache[f[0]] = strings.Split(f[1], ",")
+		}
+		if len(f) >= 3 && f[2] != "" {
+			baselineTypeCache[f[0]] = strings.Split(f[2], ";")
+		}
+	}
+}
 
 // BaselineParams returns the parameter names the function had when the rules were written.
 func BaselineParams(fn string) []string {
-	if baselineSigCache == nil {
-		baselineSigCache = map[string][]string{}
-		for _, l := range strings.Split(baselineFuncsTxt, "\n") {
-			name, ps, ok := strings.Cut(strings.TrimSpace(l), "\t")
-			if ok && ps != "" {
-				baselineSigCache[name] = strings.Split(ps, ",")
-			}
-		}
-	}
+	loadBaselineSigs()
 	return baselineSigCache[fn]
+}
+
+// BaselineParamTypes returns the parameter types (as written) the function had when the rules were written.
+func BaselineParamTypes(fn string) []string {
+	loadBaselineSigs()
+	return baselineTypeCache[fn]
 }
 
 // declName renders a FuncDecl the way FnName does for the outer function.
@@ -110,7 +125,14 @@ func ScanDeclNames(repo string) (map[string]bool, error) {
 
 // ScanDecls is ScanDeclNames with, per function, the list of its parameter names (receiver excluded).
 func ScanDecls(repo string) (map[string][]string, error) {
+	out, _, err := ScanDeclsTyped(repo)
+	return out, err
+}
+
+// ScanDeclsTyped is ScanDecls plus, per function, the parameter types as written in the source.
+func ScanDeclsTyped(repo string) (map[string][]string, map[string][]string, error) {
 	out := map[string][]string{}
+	typesOut := map[string][]string{}
 	fset := token.NewFileSet()
 	err := filepath.WalkDir(repo, func(path string, d os.DirEntry, err error) error {
 		if err != nil {
@@ -137,17 +159,21 @@ func ScanDecls(repo string) (map[string][]string, error) {
 			if !ok {
 				continue
 			}
-			var params []string
+			var params, ptypes []string
 			for _, f := range fd.Type.Params.List {
+				ts := strings.ReplaceAll(types.ExprString(f.Type), " ", "")
 				if len(f.Names) == 0 {
 					params = append(params, "_")
+					ptypes = append(ptypes, ts)
 				}
 				for _, n := range f.Names {
 					params = append(params, n.Name)
+					ptypes = append(ptypes, ts)
 				}
 			}
 			if fd.Recv == nil || len(fd.Recv.List) == 0 {
 				out[pkgShort+"."+fd.Name.Name] = params
+				typesOut[pkgShort+"."+fd.Name.Name] = ptypes
 				continue
 			}
 			t := fd.Recv.List[0].Type
@@ -178,13 +204,15 @@ func ScanDecls(repo string) (map[string][]string, error) {
 			n := pkgShort + "." + tn
 			if ptr {
 				out["(*"+n+")."+fd.Name.Name] = params
+				typesOut["(*"+n+")."+fd.Name.Name] = ptypes
 			} else {
 				out["("+n+")."+fd.Name.Name] = params
+				typesOut["("+n+")."+fd.Name.Name] = ptypes
 			}
 		}
 		return nil
 	})
-	return out, err
+	return out, typesOut, err
 }
 
 // Normalize returns an overlay (absolute file name -> content) in which every
